@@ -469,10 +469,10 @@ def compute_content_list(content_list, parent_box, counter_values, css_token,
             target_values = lookup_target.target_box.cached_counter_values
             if need_collect_missing and counter_name not in target_values:
                 anchor_name = targets.anchor_name_from_token(anchor_token)
-                missing_counters = missing_target_counters.setdefault(
+                target_missing_counters = missing_target_counters.setdefault(
                     anchor_name, [])
-                if counter_name not in missing_counters:
-                    missing_counters.append(counter_name)
+                if counter_name not in target_missing_counters:
+                    target_missing_counters.append(counter_name)
             # Mixin target's cached page counters.
             # cached_page_counter_values are empty during layout.
             local_counters = lookup_target.cached_page_counter_values.copy()
